@@ -283,7 +283,7 @@ PLANS['C18'] = dict(
 )
 
 
-AF = dict(wraps=['malloc'], ldflags=['-rdynamic'])
+AF = dict(wraps=['malloc', 'calloc'], ldflags=['-rdynamic'])
 PLANS['C19'] = dict(
     level='fault_enumeration',
     rule='fault enumeration: round r fails the (r mod 13)-th malloc issued from inside nsync_note_new / nsync_counter_new while a tree of 7 notes and 3 counters is built '
